@@ -1,4 +1,5 @@
 import Dia.ClientPolite
+import Dia.ClientWire
 /-! # C11 - Client delivers each answer to the request it belongs to. Property theorems only.
 The client is the labelled transition system of `Dia/Client.lean`; a *run* is any list of labels, i.e. any
 interleaving of the sender, the reader task and an arbitrary peer, at the granularity of the code's critical
@@ -40,5 +41,20 @@ theorem C11_once (ls : List Label) (s : St) (hs : Hist) (hp : politeRun init {} 
   have h1 := (hi.base.got_ok w m hw hg).1
   have h2 := (hi.base.got_ok w' m hw' hg').1
   exact hi.k_uniq w w' hw hw' (by rw [← h1, ← h2])
+
+/-- **how answer bytes are segmented does not matter.** The items of the transition system above are what the stream
+reader extracts from the peer's octets; on any script that delivers a concatenation of acceptable answer frames -
+split anywhere, with `Pending` anywhere - the reader sees exactly those answers in order, so every statement above holds
+for every segmentation of the same octets. (`Dia/ClientWire.lean`, from `C06_read_all`.) -/
+theorem C11_segmentation_irrelevant (cfg : Dia.Cfg) (dict : Dia.Lookup) (frames : List Dia.Bytes) (msgs : List Dia.Msg)
+    (evs evs2 : List Dia.REv) (more : Dia.Bytes) (hl : frames.length = msgs.length)
+    (hacc : ∀ i (h1 : i < frames.length) (h2 : i < msgs.length), Dia.Accepts cfg dict frames[i] msgs[i])
+    (hne : Dia.noEmpty evs) (hne2 : Dia.noEmpty evs2)
+    (hflat : Dia.flat evs = frames.flatten ++ more) (hflat2 : Dia.flat evs2 = frames.flatten ++ more) :
+    Dia.itemsOf cfg dict frames.length evs = msgs.map Dia.Msg.item ∧
+    Dia.itemsOf cfg dict frames.length evs = Dia.itemsOf cfg dict frames.length evs2 := by
+  have h1 := Dia.itemsOf_frames cfg dict frames msgs evs more hl hacc hne hflat
+  have h2 := Dia.itemsOf_frames cfg dict frames msgs evs2 more hl hacc hne2 hflat2
+  exact ⟨h1, by rw [h1, h2]⟩
 
 end Dia.Cl
